@@ -345,6 +345,12 @@ class Interp:
         self.steps += 1
         if self.steps > self.max_steps:
             raise Unsupported("step budget exhausted")
+        # methods of an interpreted generator object (send / __next__ / close): drive it directly
+        if isinstance(fn, types.MethodType) and isinstance(fn.__self__, IGen):
+            try:
+                return fn(*args, **kwargs)
+            except StopIteration as e:
+                raise PyExc(StopIteration(e.value))
         # unwrap bound methods
         if isinstance(fn, types.MethodType):
             return (yield from self.call(fn.__func__, (fn.__self__,) + tuple(args), kwargs, node, frame))
